@@ -364,6 +364,68 @@ def b_jobs():
     return [jobs[i::32] for i in range(32)]
 
 
+# ------------------------------------------------------------------ harness C: NEWKEYS (and key exchange messages) with no exchange behind them
+def stray_run(role, suite, strict, after_rekeys, msg):
+    """after `after_rekeys` genuine re-exchanges the independent peer sends a NEWKEYS (or a stale kex message)
+    that no exchange called for: it must end the connection -- accepting it would put the old keys back in
+    force (and, with strict kex, restart the sequence number under them)"""
+    algs = dict(encryption_algs=[suite[0]], mac_algs=[suite[1]] if suite[1] else ())
+    kw = dict(ciphers=[suite[0]], macs=[suite[1] or 'hmac-sha1'], strict=strict)
+    if role == 'server':
+        w = H.SrvWorld(sopts=algs, rp_kw=kw)
+    else:
+        w = H.CliWorld(copts=algs, rp_kw=kw)
+    viol = []
+    try:
+        rp = w.rp
+        if role == 'server':
+            w.kex().auth()
+        else:
+            w.login()
+        for _ in range(after_rekeys):
+            rp.send_kexinit()
+            w.flush()
+        n = rp.kex_done
+        if n != 1 + after_rekeys:
+            viol.append(('no-rekey', 'exchanges completed: %d' % n))
+        payload = {'newkeys': R.byte(R.MSG_NEWKEYS), 'kex-init-msg': R.byte(30) + R.string(bytes(32)),
+                   'kex-reply-msg': R.byte(31) + R.string(b'x') + R.string(bytes(32)) + R.string(b'y')}[msg]
+        R.RefPeer.send(rp, payload)
+        w.flush()
+        # the peer keeps talking under the keys it has: an ignore message, then a real request
+        R.RefPeer.send(rp, R.byte(2) + R.string(b'still here'))
+        w.flush()
+        conn = w.conn
+        if conn._transport is not None:
+            viol.append(('stray-%s-accepted' % msg, 'the connection is still up after a %s that no key exchange called for '
+                         '(%d exchanges completed before it, strict kex %s)' % (msg, n, strict)))
+        exc = w.loop.unretrieved()
+        if exc:
+            viol.append(('loop-exception', repr(exc[0].get('exception') or exc[0].get('message'))[:200]))
+    except (R.RefError, Livelock) as exc:
+        viol.append(('refpeer-reject', str(exc)))
+    finally:
+        w.close()
+    return viol
+
+
+def c_worker(job):
+    acc = core.Acc()
+    for case in job:
+        viol = stray_run(*case)
+        acc.add(core.digest(('stray', case)), transitions=2, sample={'stray': list(case)} if case[3] == 1 and case[4] == 'newkeys' and case[2] else None)
+        for k, d in viol:
+            acc.violation('rekeyC:%s:%s' % (k, case[0]), '%s ; suite %r' % (d, case[1]), {'kind': 'C', 'job': [case[0], list(case[1]), case[2], case[3], case[4]]})
+    return acc
+
+
+def c_jobs():
+    suites = [('aes128-ctr', 'hmac-sha2-256'), ('aes256-gcm@openssh.com', None), ('chacha20-poly1305@openssh.com', None)]
+    cases = [(role, su, strict, n, msg) for role in ('server', 'client') for su in suites for strict in (True, False)
+             for n in (0, 1, 2) for msg in ('newkeys', 'kex-init-msg', 'kex-reply-msg')]
+    return [cases[i::16] for i in range(16)]
+
+
 def main(tier, seed):
     t0 = core.now()
     cfg0 = configs(tier)[2]
@@ -380,12 +442,14 @@ def main(tier, seed):
     acc = core.pmap(worker, core.rotate(js, seed), chunksize=2)
     n_a = acc.evaluations
     acc.merge(core.pmap(b_worker, b_jobs()))
+    acc.merge(core.pmap(c_worker, c_jobs()))
     rule = ('A: configurations {byte limit of ~1 packet / small / 1 kB, time limit with the virtual clock} x '
             '{client, server, both}, ping-pong data both ways on one channel plus a second session opened '
             'mid-stream; every packet delivery order with <= bound deviations, deviations allowed while an '
             'exchange is in progress or a KEXINIT is in flight; B: refpeer or asyncssh initiates a re-exchange '
             'after auth / after channel open / mid-data while the algorithms change between 4 suites (16 '
-            'pairs), both roles.  non-trivial = execution in which at least one re-exchange started')
+            'pairs), both roles; C: after 0-2 genuine re-exchanges the peer sends a NEWKEYS or a key exchange message '
+            'that no exchange called for: the connection must end.  non-trivial = execution in which at least one re-exchange started')
     return core.finish(PROP, tier, seed, 'model_checking', acc, t0, rule,
                        {'A_execs': n_a, 'B_execs': acc.evaluations - n_a,
                         'deviation_bound': 3 if tier == 'quick' else 4,
@@ -394,6 +458,13 @@ def main(tier, seed):
 
 def replay(rep):
     r = rep['replay']
+    if r.get('kind') == 'C':
+        j = r['job']
+        acc = c_worker([[(j[0], tuple(j[1]), j[2], j[3], j[4])]])
+        print(json.dumps(acc.violations, indent=1, default=repr))
+        if acc.violations:
+            print('VIOLATION property=%s replay=(given)' % PROP)
+        return 1 if acc.violations else 0
     if r['kind'] == 'A':
         obs = run(r['cfg'], core.Chooser(r['choices']))
         v = obs['viol']
